@@ -97,7 +97,17 @@ func fillPix(p []uint8, seed int) {
 	}
 }
 
-func pixString(p []uint8) string { return fmt.Sprintf("%x", p) }
+// pixString is the caller reading its result: the reads go through the hook so
+// that a worker still writing after the call has returned (a goroutine that
+// outlives the call) is an unordered write/read pair for the race oracle.
+func pixString(p []uint8) string {
+	if vrt.Active() {
+		for i := 0; i < len(p); i += 8 {
+			_ = *vrt.R(&p[i])
+		}
+	}
+	return fmt.Sprintf("%x", p)
+}
 
 func tinyPNG() []byte {
 	return []byte("\x89PNG\r\n\x1a\n\x00\x00\x00\rIHDR\x00\x00\x00\x02\x00\x00\x00\x03\x08\x02\x00\x00\x00\x12\x34\x56\x78\x00\x00\x00\x04gAMA\x00\x00\xb1\x8f\x00\x00\x00\x00\x00\x00\x00\x00IDAT\x00\x00\x00\x00")
